@@ -57,6 +57,24 @@ def _run_one(prop, spec, ctx):
     except Rejected:
         ctx.event("rejected")
         ctx.counters["rejected"] += 1
+    except (HarnessError, StopShrink):
+        raise
+    except Exception as e:
+        # An exception raised *inside msdm* (innermost frame in the library) while the harness was using its
+        # public API is a violation of the property under test ("the call succeeds"), not a harness error;
+        # anything raised by harness code itself stays a harness error.
+        tb = traceback.extract_tb(e.__traceback__)
+        inner = tb[-1].filename if tb else ""
+        if "/msdm/" in inner and "/vpm/" not in inner:
+            where = f"{inner.split('/msdm/', 1)[1]}:{tb[-1].lineno}"
+            name = f"{ctx.pid}.{prop.name}.unexpected_exception_in_msdm"
+            try:
+                ctx.viol(name, f"{type(e).__name__}: {e} at {where}")
+            except Violation:
+                ctx.end(ok=False)
+                raise
+        else:
+            raise
     ctx.end()
 
 
@@ -305,7 +323,7 @@ def main(argv=None):
             by_name[k] = v
     rc = 0
     for name, v in sorted(by_name.items()):
-        d = os.path.join(VERIF_ROOT, "replays", pid)
+        d = os.path.join(os.environ.get("VERIF_REPLAY_DIR") or os.path.join(VERIF_ROOT, "replays"), pid)
         os.makedirs(d, exist_ok=True)
         path = os.path.join(d, f"{name.replace('/', '_')}-{spec_hash(v['spec'])}.json")
         with open(path, "w") as f:
